@@ -10,16 +10,21 @@ from icalendar.parser import Contentline, Contentlines
 ID = "C06"
 TECHNIQUE = "exhaustive alignment sweep of multi-octet characters against the 75-octet boundary + Hypothesis mixed-width lines; independent byte-level fold checker"
 RULE = ("(i) exhaustive alignment sweep: for each width 2/3/4 (e-acute, euro sign, emoji) x ASCII prefix length 0..230 x "
-        "4 tails, and all-multibyte lines at offsets 0..3; (ii) all-ASCII lines of every length 0..400 with SP/TAB/CR "
+        "4 tails, all-multibyte lines at offsets 0..3, and the first/last code point of every UTF-8 width class and code-point bit length at prefix lengths 0..79; (ii) all-ASCII lines of every length 0..400 with SP/TAB/CR "
         "variants at the fold points; (iii) Hypothesis lines over a mixed 1-4 octet alphabet with SP/TAB/CR/multi-octet "
         "characters forced at positions 70-80 (mod 74); (iv) multi-line Contentlines and every physical line of "
         "serialised components with long values. Oracle: independent byte-level checker (CRLF termination, <=75 "
         "octets, each physical line valid UTF-8, exactly one added SP, removing CRLF+1 octet restores the original) "
         "and the library's own unfolding. Non-trivial: the line needs at least one fold (>75 octets); distinct by hash.")
-ASSUMPTIONS = ["content lines start with a non-whitespace character (a property name)", "lines contain no LF (premise)"]
+ASSUMPTIONS = ["content lines start with a property-name character: not with SP/TAB/CR and not with U+FEFF (a leading U+FEFF in bytes is a BOM, cf. C09)", "lines contain no LF (premise)"]
 REQUIRED_CLASSES = ["multi-octet-adjacent-to-boundary", "whitespace-at-fold-point", "kind:line", "kind:lines", "kind:component"]
 
 WIDE = {2: "é", 3: "€", 4: "\U0001F600"}
+# first/last code points of every UTF-8 width class and of every code-point bit length (width tables are a natural
+# place for off-by-one errors), plus common scripts
+EDGE_CHARS = ["\u0080", "\u00ff", "\u0100", "\u03a9", "\u0400", "\u07ff", "\u0800", "\u0905", "\u0e01", "\u0fff", "\u1000",
+              "\u1fff", "\u2000", "\u3042", "\u4e2d", "\u7fff", "\u8000", "\uac00", "\ud7ff", "\ue000", "\ufeff", "\uffff",
+              "\U00010000", "\U0001ffff", "\U00020000", "\U0003ffff", "\U00040000", "\U000fffff", "\U00100000", "\U0010ffff"]
 
 
 def check_folded(orig: str, out: bytes, clause="C06.line", require_final_crlf=False):
@@ -64,6 +69,12 @@ def my_unfold_lines(raw: bytes):
         else:
             logical.append(ln)
     return phys, logical
+
+
+def _lead(s):
+    """Premise: a content line starts with a property name - never with folding whitespace or U+FEFF (which, at the
+    start of a byte string handed to from_ical, is a byte-order mark by definition; see C09)."""
+    return "X" + s if s and s[0] in " \t\r\ufeff" else s
 
 
 def judge(case):
@@ -177,13 +188,19 @@ def _sweep(i):
     tail = TAILS[ti]
     if tail is None:
         tail = ch * 40
-    return {"kind": "line", "s": "a" * p + ch + tail}
+    return {"kind": "line", "s": _lead("a" * p + ch + tail)}
 
 
 def _allwide(i):
-    wi, off = divmod(i, 4)
-    ch = WIDE[(2, 3, 4)[wi]]
-    return {"kind": "line", "s": "x" * off + ch * 120}
+    ci, off = divmod(i, 4)
+    ch = (list(WIDE.values()) + EDGE_CHARS)[ci]
+    return {"kind": "line", "s": _lead("x" * off + ch * 120)}
+
+
+def _edge_sweep(i):
+    ci, p = divmod(i, 80)
+    ch = EDGE_CHARS[ci]
+    return {"kind": "line", "s": _lead("a" * p + ch * 3 + "b" * 80)}
 
 
 def _ascii(i):
@@ -197,7 +214,11 @@ def _ascii(i):
     return {"kind": "line", "s": s}
 
 
-_mixed = st.sampled_from(list("abcXYZ09:;=,") + [" ", "\t", "\r", "é", "ü", "€", "中", "\U0001F600", "\U00010348"])
+_mixed = st.one_of(
+    st.sampled_from(list("abcXYZ09:;=,") + [" ", "\t", "\r", "é", "ü", "€", "中", "\U0001F600", "\U00010348"]),
+    st.sampled_from(EDGE_CHARS),
+    st.characters(blacklist_categories=("Cs",), blacklist_characters="\n"),
+)
 _hot_positions = list(range(68, 82)) + list(range(142, 158)) + list(range(216, 232))
 _hot_chars = [" ", "\t", "\r", "é", "€", "\U0001F600"]
 
@@ -211,9 +232,9 @@ def mixed_line(draw, lead="X"):
         if pos < len(chars):
             chars[pos] = ch
     s = "".join(chars)
-    if lead and (not s or s[0] in " \t\r"):
-        s = lead + s
-    return s
+    if lead and not s:
+        s = lead
+    return _lead(s)
 
 
 def _hyp():
@@ -231,7 +252,8 @@ def streams(tier):
     n = 1200 if tier == "quick" else 40000
     return [
         Stream("alignment-sweep", "enum", 3 * 231 * len(TAILS), 4, _sweep, True, True),
-        Stream("all-wide-offsets", "enum", 12, 1, _allwide, True, True),
+        Stream("all-wide-offsets", "enum", 4 * (3 + len(EDGE_CHARS)), 1, _allwide, True, True),
+        Stream("width-class-edges", "enum", 80 * len(EDGE_CHARS), 4, _edge_sweep, True, True),
         Stream("ascii-lengths", "enum", 401 * 4, 2, _ascii, True, False),
         Stream("mixed-lines", "hyp", n, 16, _hyp),
     ]
